@@ -1,6 +1,7 @@
 """Document model of a string-building term: the text an expression denotes, as a sequence of literal chunks, holes and
 repetitions, independent of whether the source used `+`, f-strings, str.format, `+=` accumulation in loops, or a list of
 lines joined once.  Used for the instance-file grammar (C08, C09)."""
+import itertools
 from .terms import *
 
 
@@ -83,6 +84,9 @@ def doc_hole(x):
     return [Hole(x)]
 
 
+_join_ids = itertools.count(2 * 10 ** 6)
+
+
 def join_doc(sep, lst):
     """sep.join(list-valued term)"""
     if lst[0] == 'list':
@@ -99,12 +103,47 @@ def join_doc(sep, lst):
                 return merge(unroll(els, lst[1][0][0], lst[2]))
         return [Rep(lst[1], doc_of(lst[2]), sep)]
     if lst[0] == 'cat':
+        # sep.join(A + B + ...): a part that may be EMPTY contributes no separator, so separators are attached to the
+        # elements themselves, anchored at a literal first or last element:  a + sep + (x + sep for x in L) + z
+        units = []
+        def flatten(part):
+            if part[0] == 'call' and part[1] in (S('list'), S('tuple')) and len(part[2]) == 1 and not part[3]:
+                part = part[2][0]
+            if part[0] == 'list':
+                units.extend(('lit', el) for el in part[1])
+            elif part[0] == 'cat':
+                for q in part[1]:
+                    flatten(q)
+            elif part[0] == 'bin' and part[1] == 'Add':
+                flatten(part[2])
+                flatten(part[3])
+            else:
+                units.append(('var', part))
+        for part in lst[1]:
+            flatten(part)
+        if not any(k_ == 'var' for k_, _ in units):
+            return join_doc(sep, ('list', tuple(x for _, x in units)))
+        if len(units) == 1:
+            return join_doc(sep, units[0][1])
+        def rep(part, before):
+            if part[0] == 'comp':
+                chain, items = part[1], doc_of(part[2])
+            else:
+                b = ('bvar', next(_join_ids), 'e', part)
+                chain, items = ((b, TRUE),), [Hole(b)]
+            return Rep(chain, merge(([Lit(sep)] if before else []) + items + ([] if before else [Lit(sep)])), None)
         out = []
-        for i, part in enumerate(lst[1]):
-            if i:
-                out.append(Lit(sep))
-            out += join_doc(sep, part)
-        return merge(out)
+        if units[-1][0] == 'lit':
+            for k_, x in units[:-1]:
+                out += (doc_of(x) + [Lit(sep)]) if k_ == 'lit' else [rep(x, False)]
+            out += doc_of(units[-1][1])
+            return merge(out)
+        if units[0][0] == 'lit':
+            out += doc_of(units[0][1])
+            for k_, x in units[1:]:
+                out += ([Lit(sep)] + doc_of(x)) if k_ == 'lit' else [rep(x, True)]
+            return merge(out)
+        return [Hole(lst, sep)]
     if lst[0] == 'ite':
         return [Alt(lst[1], join_doc(sep, lst[2]), join_doc(sep, lst[3]))]
     if lst[0] == 'bin' and lst[1] == 'Add':
